@@ -30,7 +30,7 @@ def one(seed):
     return name, res
 
 
-with ThreadPoolExecutor(max_workers=8) as ex:
+with ThreadPoolExecutor(max_workers=int(os.environ.get("MATRIX_JOBS", "8"))) as ex:
     results = dict(ex.map(one, seeds))
 shutil.rmtree(base, ignore_errors=True)
 json.dump(results, open(os.environ.get("MATRIX_OUT", "/tmp/seed_matrix.json"), "w"), indent=1)
